@@ -10,3 +10,4 @@ for c in $IDS; do
   echo "$c rc=$RC $(($(date +%s)-START))s $(grep -v KNOWN-FINDING /tmp/run_all_$c.log | tail -1 | cut -c1-300)"
   [ $RC -ne 0 ] && grep "violation\[\|VIOLATION\|HARNESS" /tmp/run_all_$c.log | head -12 | cut -c1-400
 done
+exit 0
